@@ -21,9 +21,18 @@ Prelude == << Func("FK", <<"P">>, <<Return(V("P"))>>),
               Func("FE", <<"P">>, <<Let("L", OCtor(I(60))), Let("Q", V("P")), RaiseS("E1")>>),
               \* two parameters: an object is bound to the first when the evaluation of the second argument fails
               Func("FK2", <<"P", "Q">>, <<Return(V("P"))>>),
-              Let("A", OCtor(I(1))), Let("B", OCtor(I(2))), Let("T", Call("tab", <<I(1), A>>)), Let("U", Call("tup", <<I(1), Bv>>)) >>
+              Let("A", OCtor(I(1))), Let("B", OCtor(I(2))), Let("T", Call("tab", <<I(1), A>>)), Let("U", Call("tup", <<I(1), Bv>>)),
+              \* a table of tables whose only row holds an object nothing else refers to
+              Let("TT", Call("tab", <<I(1), Call("tab", <<I(1), OCtor(I(40))>>)>>)) >>
 
+TTv == V("TT")
 Pool == <<
+  \* rows of a table of tables: a row given by a variable is copied (the variable keeps its objects, the replaced row's
+  \* objects lose a reference at that moment), a row read back shares the objects
+  NotNull(Tt, <<NotNull(TTv, <<Do(Mem(TTv, "put", <<I(0), Tt>>))>>)>>),
+  NotNull(Tt, <<NotNull(TTv, <<Do(Mem(TTv, "insert", <<I(0), Tt>>))>>)>>),
+  NotNull(Tt, <<Let("TT", Call("tab", <<I(2), Tt>>))>>),
+  NotNull(TTv, <<Let("T", Mem(TTv, "at", <<I(0)>>))>>),
   Let("A", OCtor(I(3))), Let("B", A), LetN("A", T("obj")), Let("B", OCtor(A)), Let("A", Bv),
   Let("T", Call("tab", <<I(2), A>>)), NotNull(Tt, <<Do(Mem(Tt, "put", <<I(0), Bv>>))>>), NotNull(Tt, <<Do(Mem(Tt, "concat", <<A>>))>>),
   NotNull(Tt, <<Do(Mem(Tt, "delete", <<I(0)>>))>>), Let("T", Call("tab", <<I(0), OCtor(I(12))>>)),
